@@ -82,6 +82,8 @@ pub fn registry() -> Vec<(&'static str, fn(&mut src::Tape))> {
     v.extend_from_slice(c14::ALL);
     #[cfg(feature = "c15")]
     v.extend_from_slice(c15::ALL);
+    #[cfg(feature = "c15obs")]
+    v.extend_from_slice(c15::OBS);
     #[cfg(feature = "c17")]
     v.extend_from_slice(c17::ALL);
     #[cfg(feature = "c18")]
